@@ -168,6 +168,29 @@ pub fn header(a: &[&str]) -> String {
     let o = opts_of(a[0].parse().expect("opts"));
     let prev: Option<Picture> = if a[1] == "-" {
         None
+    } else if let Some(bits) = a[1].strip_prefix('o') {
+        // a synthetic previous header: the given options, no format
+        Some(Picture {
+            version: None,
+            temporal_reference: 0,
+            format: None,
+            options: h263_rs::PictureOption::from_bits_truncate(bits.parse().expect("options")),
+            has_plusptype: true,
+            has_opptype: false,
+            picture_type: h263_rs::PictureTypeCode::PFrame,
+            motion_vector_range: None,
+            slice_submode: None,
+            scalability_layer: None,
+            reference_picture_selection_mode: None,
+            prediction_reference: None,
+            backchannel_message: None,
+            reference_picture_resampling: None,
+            quantizer: 1,
+            multiplex_bitstream: None,
+            pb_reference: None,
+            pb_quantizer: None,
+            extra: vec![],
+        })
     } else {
         let mut r = H263Reader::from_source(std::io::Cursor::new(unhex(a[1])));
         decode_picture(&mut r, o, None).ok().flatten()
